@@ -845,6 +845,12 @@ func enumC17(n int, seed int64, thorough bool) []func() []wcaseT {
 			run.W = kz.Cfg{Transform: pair[0], Entropy: pair[1], Block: B, Jobs: uint(1 + rnd.Intn(4)), Ck: pick(rnd, []uint{0, 32, 64}), Hint: -1}
 			run.RJobs = uint(1 + rnd.Intn(4))
 			lens := []int{0, 1, int(B) - 1, int(B), int(B) + 1, 3 * int(B), 17, 2*int(B) + 5}
+			if g%7 == 3 {
+				// a block larger than the smallest input buffer (256 KiB), filled by several calls
+				B = 1 << 20
+				run.W.Block = B
+				lens = []int{0, 1, 100000, 262144, 262145, 300000, 400000, 17}
+			}
 			total := 0
 			np := 1 + rnd.Intn(10)
 			closed := false
@@ -872,6 +878,13 @@ func enumC17(n int, seed int64, thorough bool) []func() []wcaseT {
 				run.Prog = append(run.Prog, "C", "G")
 			}
 			run.Size = total + 64
+			if g%7 == 3 || g%5 == 1 {
+				// the declared input size is only a hint: exact, absent, too small, too large
+				run.W.Hint = pick(rnd, []int64{0, 1, 1000, int64(total / 3), int64(total) - 1, int64(total), int64(total) + 7, 300000, 4 * int64(total)})
+				if run.W.Hint < 0 {
+					run.W.Hint = 0
+				}
+			}
 			return []wcaseT{{run, gen.Make(run.Shape, run.Seed, run.Size)}}
 		})
 	}
